@@ -358,6 +358,24 @@ def facevar(pf, mesh, arrs):
     return pf.FaceVariable(mesh, a[0], a[1], a[2])
 
 
+def facevar_refreshed(pf, mesh, arrs):
+    """a velocity / coefficient object that has a HISTORY: created with other values, used for the advection matrices, the TVD
+    correction and the upwind mean, then given its real values IN PLACE (u.xvalue[...] = ..., the documented way to refresh a face
+    variable inside a loop). Equal, for every purpose, to facevar(pf, mesh, arrs)."""
+    first = [np.asarray(x, dtype=float)[..., ::-1] * -0.5 + 0.25 if np.asarray(x).ndim else np.asarray(x, dtype=float) for x in arrs]
+    fv = facevar(pf, mesh, [np.ascontiguousarray(a_) for a_ in first])
+    with np.errstate(all='ignore'):
+        try:
+            phi_ = pf.CellVariable(mesh, 1.0)
+            pf.convectionTerm(fv), pf.convectionUpwindTerm(fv), pf.upwindMean(phi_, fv), pf.diffusionTerm(fv)
+            pf.convectionTVDupwindRHSTerm(fv, phi_, pf.fluxLimiter('SUPERBEE'))
+        except Exception:
+            pass
+    for comp, target in zip(facevar_arrays(fv, len(arrs)), arrs):
+        comp[...] = np.asarray(target, dtype=float)
+    return fv
+
+
 def facevar_arrays(fv, nd):
     return [fv._xvalue, fv._yvalue, fv._zvalue][:nd]
 
